@@ -44,6 +44,9 @@ type Hooks struct {
 	// lit is the function literal whose (inlined) frame is returning, nil for
 	// the outermost frame.
 	PreReturn func(ret *ast.ReturnStmt, lit *ast.FuncLit, s State) State
+	// Eval is called for expressions that are evaluated but are neither a
+	// condition nor part of a call/assignment: a switch tag, a range operand.
+	Eval func(e ast.Expr, s State)
 	// RangeAtLeastOnce: if it returns true the loop is assumed to run at
 	// least once (its zero-iteration path is dropped).
 	RangeAtLeastOnce func(rs *ast.RangeStmt) bool
@@ -119,6 +122,15 @@ func Run(h Hooks, body *ast.BlockStmt, init ...State) *Interp {
 	}
 	sort.Slice(in.Exits, func(i, j int) bool { return in.Exits[i] < in.Exits[j] })
 	return in
+}
+
+func (in *Interp) eval(e ast.Expr, s set) {
+	if in.H.Eval == nil {
+		return
+	}
+	for k := range s {
+		in.H.Eval(e, k.S)
+	}
 }
 
 func (in *Interp) cur() *frame { return in.frames[len(in.frames)-1] }
@@ -361,6 +373,7 @@ func (in *Interp) stmt(st ast.Stmt, s set, label string) set {
 		return exit
 	case *ast.RangeStmt:
 		s = in.expr(x.X, s)
+		in.eval(x.X, s)
 		l := &loopCtx{label: label, breaks: set{}, continues: set{}}
 		head := copySet(s)
 		exit := set{}
@@ -392,6 +405,7 @@ func (in *Interp) stmt(st ast.Stmt, s set, label string) set {
 		s = in.stmt(x.Init, s, "")
 		if x.Tag != nil {
 			s = in.expr(x.Tag, s)
+			in.eval(x.Tag, s)
 		}
 		return in.switchBody(x.Body, s, label, x.Tag == nil)
 	case *ast.TypeSwitchStmt:
